@@ -130,7 +130,7 @@ def h(sym, n, auxes, symticks, parent, done_need, end, force_same=False, aux_fra
 def obligations(tier):
     out = []
     if tier == "quick":
-        cfgs = [(3, ("plain",), 1, (0, 2, 3), STOP), (3, ("plain", "plain"), 1, False, None), (2, ("plain",), 3, (2, 3), None, 3)]
+        cfgs = [(3, ("plain",), 1, (0, 2, 3), STOP), (3, ("plain", "plain"), 1, False, None), (2, ("plain",), 2, (2, 3), None, 3)]
     else:
         cfgs = [(3, ("plain",), 3, True, STOP), (4, ("plain",), 2, True, ABORT), (3, ("plain", "plain"), 2, True, STOP),
                 (4, ("plain", "plain"), 1, False, None), (2, ("plain",), 4, True, STOP, 3), (3, ("plain",), 3, (2, 3), None, 3)]
